@@ -53,6 +53,10 @@ def get_use_tree(
         # Escape any IMPORT, NONE statements
         if type(use_stmnt) is Import and use_stmnt.import_type is ImportTypes.NONE:
             continue
+        # IMPORT statements of a module that is only being descended into say
+        # nothing about the scope the search started from
+        if type(use_stmnt) is Import and curr_path:
+            continue
         # Intersect parent and current ONLY list and renaming
         if not only_list:
             merged_use_list = use_stmnt.only_list.copy()
